@@ -1,3 +1,4 @@
+#include <stdint.h>
 #include "public/module/thpool/thpool.h"
 #include "poll.h"
 #include "evts.h"
@@ -220,7 +221,17 @@ static int tmrcmp(void *my_data, void *node_data) {
     const ev_src_t *mine = (const ev_src_t *)my_data;
     const ev_src_t *src = (const ev_src_t *)node_data;
 
-    return M_CMP(mine->tmr_src.its.ns, src->tmr_src.its.ns);
+    const int ret = M_CMP(mine->tmr_src.its.ns, src->tmr_src.its.ns);
+    if (ret != 0) {
+        return ret;
+    }
+    /*
+     * Library-internal timers (batch timeout, tokenbucket) are identified by their owner too:
+     * they never collide with a user timer having the same period, nor with each other.
+     */
+    const void *my_owner = (mine->flags & M_SRC_INTERNAL) ? mine->userptr : NULL;
+    const void *owner = (src->flags & M_SRC_INTERNAL) ? src->userptr : NULL;
+    return M_CMP((uintptr_t)my_owner, (uintptr_t)owner);
 }
 
 static int sgncmp(void *my_data, void *node_data) {
@@ -454,6 +465,20 @@ int deregister_mod_src(m_mod_t *mod, m_src_types type, void *src_data) {
     /* If a src is deregistered for a RUNNING module, stop polling on it */
     unpoll_src(m_bst_find(mod->srcs[type], &key));
     return m_bst_remove(mod->srcs[type], &key);
+}
+
+/* Deregister a library-internal timer (user API can only reach user timers) */
+int deregister_internal_tmr(m_mod_t *mod, const m_src_tmr_t *its, const void *owner) {
+    M_MOD_ASSERT(mod);
+    M_MOD_CONSUME_TOKEN(mod);
+
+    ev_src_t key;
+    fill_src_key(&key, M_SRC_TYPE_TMR, its);
+    key.flags = M_SRC_INTERNAL;
+    key.userptr = owner;
+
+    unpoll_src(m_bst_find(mod->srcs[M_SRC_TYPE_TMR], &key));
+    return m_bst_remove(mod->srcs[M_SRC_TYPE_TMR], &key);
 }
 
 int start_task(m_ctx_t *c, ev_src_t *src) {
